@@ -11,6 +11,7 @@ import (
 	"strings"
 
 	"golang.org/x/tools/go/ssa"
+	"golang.org/x/tools/go/types/typeutil"
 )
 
 type State struct {
@@ -38,6 +39,7 @@ type Obligation struct {
 	Inputs  []namedTerm
 	Result  *SolveResult
 	Blk     *ssa.BasicBlock
+	Blks    []*ssa.BasicBlock
 	Backend string // "smt" or "syntactic"
 	Status  string // discharged | failed
 	Detail  string
@@ -61,6 +63,7 @@ type Exec struct {
 	top     *Frame
 	names   map[string]int
 	typeIDs map[string]int
+	typeMap typeutil.Map
 	typeOf  map[int]types.Type
 	errs    []string
 	inputs  []namedTerm
@@ -68,7 +71,9 @@ type Exec struct {
 
 	factBlk   []*ssa.BasicBlock
 	curBlk    *ssa.BasicBlock
+	curBlks   []*ssa.BasicBlock
 	reachMemo map[*ssa.Function][][]bool
+	targetPkgs map[string]bool
 	tagFacts    []*Term
 	sealedImpls map[string][]int
 	pureSeen  map[string]bool
@@ -120,6 +125,8 @@ type Frame struct {
 	capSites   map[*Capture]ssa.CallInstruction
 	assertsDone map[*Clause]bool
 	headNew    map[int]int
+	backStates map[*ssa.BasicBlock][]*State
+	backSrc    map[*ssa.BasicBlock][]*ssa.BasicBlock
 }
 
 type loopInfo struct {
@@ -132,7 +139,7 @@ type loopInfo struct {
 
 func newExec(prog *Program, cs *Contracts) *Exec {
 	return &Exec{prog: prog, cs: cs, notes: map[string]bool{}, assumed: map[string]bool{}, names: map[string]int{},
-		typeIDs: map[string]int{}, typeOf: map[int]types.Type{}, globals: map[*ssa.Global]int{}, sealedImpls: map[string][]int{}, reachMemo: map[*ssa.Function][][]bool{}}
+		typeIDs: map[string]int{}, typeOf: map[int]types.Type{}, globals: map[*ssa.Global]int{}, sealedImpls: map[string][]int{}, reachMemo: map[*ssa.Function][][]bool{}, targetPkgs: map[string]bool{}}
 }
 
 func (ex *Exec) note(f string, a ...any) {
@@ -157,7 +164,13 @@ func (ex *Exec) relevantFacts(o *Obligation) []*Term {
 	var out []*Term
 	for i := 0; i < o.NFacts; i++ {
 		fb := ex.factBlk[i]
-		if fb == nil || o.Blk == nil || fb == o.Blk || ex.fwdReach(fb, o.Blk) {
+		keep := fb == nil || (o.Blk == nil && len(o.Blks) == 0) || (o.Blk != nil && (fb == o.Blk || ex.fwdReach(fb, o.Blk)))
+		for _, b := range o.Blks {
+			if fb == b || (fb != nil && ex.fwdReach(fb, b)) {
+				keep = true
+			}
+		}
+		if keep {
 			out = append(out, ex.facts[i])
 		}
 	}
@@ -218,7 +231,7 @@ func (ex *Exec) oblige(fr *Frame, st *State, kind, label string, goal *Term, pos
 		name = fmt.Sprintf("%s~%d", name, n)
 	}
 	g := Implies(st.reach, goal)
-	o := &Obligation{Name: name, Kind: kind, Func: fname, NFacts: len(ex.facts), Goal: g, Text: text, Backend: "smt", Inputs: ex.inputs, Blk: ex.curBlk}
+	o := &Obligation{Name: name, Kind: kind, Func: fname, NFacts: len(ex.facts), Goal: g, Text: text, Backend: "smt", Inputs: ex.inputs, Blk: ex.curBlk, Blks: ex.curBlks}
 	if kind == "ensures" || kind == "frame" || kind == "lemma" {
 		o.Blk = nil
 	}
@@ -242,12 +255,11 @@ func (ex *Exec) newObj() *Term {
 }
 
 func (ex *Exec) typeID(t types.Type) int {
-	k := types.TypeString(t, nil)
-	if id, ok := ex.typeIDs[k]; ok {
-		return id
+	if v := ex.typeMap.At(t); v != nil {
+		return v.(int)
 	}
-	id := len(ex.typeIDs) + 1
-	ex.typeIDs[k] = id
+	id := ex.typeMap.Len() + 1
+	ex.typeMap.Set(t, id)
 	ex.typeOf[id] = t
 	ex.tagFacts = append(ex.tagFacts, Eq(UF("boxedtag", SBool, IntT(int64(id))), BoolT(!pointerShaped(t))))
 	return id
@@ -525,7 +537,7 @@ const maxDepth = 6
 
 func (ex *Exec) newFrame(fn *ssa.Function, args, bindings []Val, parent *Frame) *Frame {
 	fr := &Frame{ex: ex, fn: fn, regs: map[ssa.Value]Val{}, args: args, bindings: bindings, edge: map[[2]int]*State{},
-		allocByPos: map[token.Pos]*ssa.Alloc{}, captures: map[string]*capRec{}, headSnap: map[int]*State{}, parent: parent, assertsDone: map[*Clause]bool{}, headNew: map[int]int{}}
+		allocByPos: map[token.Pos]*ssa.Alloc{}, captures: map[string]*capRec{}, headSnap: map[int]*State{}, parent: parent, assertsDone: map[*Clause]bool{}, headNew: map[int]int{}, backStates: map[*ssa.BasicBlock][]*State{}, backSrc: map[*ssa.BasicBlock][]*ssa.BasicBlock{}}
 	if parent != nil {
 		fr.depth = parent.depth + 1
 		fr.label = parent.label
@@ -605,6 +617,17 @@ func (ex *Exec) run(fr *Frame, st *State) callResult {
 		}
 		ex.execBlock(fr, b, cur, ins, predIdx)
 	}
+	// back edges: one merged check per loop
+	for _, h := range fr.li.heads {
+		if sts := fr.backStates[h]; len(sts) > 0 {
+			if fr.parent == nil {
+				ex.curBlk = nil
+				ex.curBlks = fr.backSrc[h]
+			}
+			ex.backEdge(fr, fr.backSrc[h][0], h, ex.mergeStates(sts))
+			ex.curBlks = nil
+		}
+	}
 	if len(fr.rets) == 0 {
 		return callResult{}
 	}
@@ -679,7 +702,8 @@ func (fr *Frame) topFrame() *Frame {
 func (ex *Exec) putEdge(fr *Frame, from, to *ssa.BasicBlock, st *State) {
 	key := [2]int{from.Index, to.Index}
 	if fr.li.isBack[key] {
-		ex.backEdge(fr, from, to, st)
+		fr.backStates[to] = append(fr.backStates[to], st)
+		fr.backSrc[to] = append(fr.backSrc[to], from)
 		return
 	}
 	// loop exits
